@@ -128,6 +128,8 @@ class Ctx:
             hyps = list(self.facts)
             if goal.without:
                 hyps = [h for h in hyps if not any(_mentions(h, w) for w in goal.without)]
+            if getattr(goal, "lemmas", None):
+                hyps += list(goal.lemmas(*cs))
             for n_, t in enumerate(seeds):
                 # keep the seed term alive in the e-graph: g(t) = c with g, c fresh (conservative)
                 g = z3.Function("seed!%s" % t.sort().name(), t.sort(), Int)
